@@ -87,7 +87,7 @@ Qed.
 
 Lemma pstep_rinv n s o : RInv s -> RInv (pstep n s o).
 Proof.
-  intros HI. destruct o as [b t|h k|h|h ph|h|b]; cbn [pstep].
+  intros HI. destruct o as [b t|h k|h|h ph|h|b|h]; cbn [pstep].
   - apply p_lookup_rinv; exact HI.
   - destruct (nth_error (phandles s) h) as [id|]; [|exact HI].
     destruct (nth_error (mkrs s) id) as [m|]; [apply mk_patch_rinv|]; exact HI.
@@ -98,6 +98,7 @@ Proof.
     destruct (nth_error (mkrs s) id) as [m|]; [apply with_mkr_rinv|]; exact HI.
   - destruct (nth_error (phandles s) h) as [id|]; [apply p_cancel_rinv|]; exact HI.
   - apply p_reset_rinv; exact HI.
+  - exact HI.
 Qed.
 
 Theorem retained_invariant n ops : RInv (prun n pinit ops).
